@@ -36,7 +36,7 @@ chk = Check('C18', 'exploration',
             'generic mixed, node-valued) x x-grids (N x dx x offset), and inside every case the full product '
             'tau (2) x alpha (quick: default / [0.1,0.05] / scalar; thorough: + [0.0], [0.1]) x beta (3) x all 16 (fullstress, '
             'cdiffelastic, cdiffsurface, cdiffstress); bilinear/shift clauses on '
-            'profile pairs; solve() on capped minimisations; half-width on long grids.  evaluations = individual '
+            'profile pairs; solve() on capped minimisations; half-width on long grids; live: all length-3 histories of (grid, profile) evaluations with a setter change in between on ONE SDVPN object (4 grids incl. equal point count / different spacing x 6 setter choices), each answer compared with a fresh object.  evaluations = individual '
             'gamma-surface point queries + converted positions + energy-term comparisons; non-trivial = gamma queries that are off-node or need a non-zero period wrap, '
             'conversions of >= 2 positions, and energy-term comparisons whose oracle value is non-zero')
 chk.assumptions = [
@@ -1240,6 +1240,77 @@ def arctan(case):
 
 # --------------------------------------------------------------------------------------------
 
+
+# --------------------------------------------------------------------------
+# ONE live SDVPN object evaluated on several grids / with changed settings.  Every energy method takes (x, disregistry)
+# explicitly and every setting has a setter, so an object is legitimately reused; whatever it answered before, each
+# answer must equal the answer of a fresh object with the same settings (whose values the `terms` clause judges).
+# All histories of length 3 over {4 grids: two pairs with EQUAL point count and different spacing} x 2 profiles, with
+# a setting change (tau / alpha / beta / cdiffelastic) between evaluations.
+
+LIVE_GRIDS = [(21, 12, 0.0), (21, 20, 0.0), (41, 12, 0.0), (41, 20, 0.0)]
+LIVE_SETTERS = [None, ('tau', 1), ('alpha', 3), ('beta', 2), ('cdiffelastic', False), ('cdiffsurface', False)]
+LIVE_TERMS = ('misfit_energy', 'elastic_energy', 'longrange_energy', 'stress_energy', 'surface_energy', 'nonlocal_energy', 'total_energy')
+
+
+def _live_eval(s, xa, da):
+    out = []
+    for name in LIVE_TERMS:
+        out.append(float(getattr(s, name)() if name == 'longrange_energy' else getattr(s, name)(xa, da)))
+    return np.array(out)
+
+
+def _live_apply(s, st):
+    if st is None:
+        return
+    name, k = st
+    if name == 'tau':
+        s.tau = np.array(TAUS[k])
+    elif name == 'alpha':
+        s.alpha = ALPHAS[k]
+    elif name == 'beta':
+        s.beta = np.array(BETAS[k])
+    else:
+        setattr(s, name, k)
+
+
+@chk.clause('live')
+def live(case):
+    o = make_system(case['sys'])
+    fails = []
+    data = []
+    for (N, den, off) in LIVE_GRIDS:
+        dx = o.bmag / den
+        x = xgrid(N, dx, off * o.bmag)
+        data.append((np.array(x), [np.array(profile(o, PROFILES[p], x, N, dx)) for p in (0, 4)]))
+    g1 = case['g1']
+    for g2 in range(len(LIVE_GRIDS)):
+        for g3 in range(len(LIVE_GRIDS)):
+            for si, st in enumerate(LIVE_SETTERS):
+                hist = [(g1, 0, None), (g2, 1, st), (g3, 0, None)]
+                live_obj = SDVPN(volterra=o.v, gamma=o.g, tau=np.array(TAUS[1]))
+                applied = []
+                for (g, pr, setter) in hist:
+                    _live_apply(live_obj, setter)
+                    if setter is not None:
+                        applied.append(setter)
+                    fresh = SDVPN(volterra=o.v, gamma=o.g, tau=np.array(TAUS[1]))
+                    for a in applied:
+                        _live_apply(fresh, a)
+                    xa, da = data[g][0], data[g][1][pr]
+                    got, exp = _live_eval(live_obj, xa, da), _live_eval(fresh, xa, da)
+                    chk.note('energy-comparisons', len(LIVE_TERMS))
+                    chk.note('energy-comparisons-nonzero', int(np.count_nonzero(exp)))
+                    chk.note('live-evaluations')
+                    bad = np.abs(got - exp) > 1e-12 * np.abs(exp).max()
+                    if bad.any():
+                        k = int(np.argmax(bad))
+                        fails.append(Fail(key='live-%s-depends-on-history' % LIVE_TERMS[k],
+                                          msg='%s on a reused SDVPN object differs from a fresh object with the same settings; grids visited %s, setter %s'
+                                          % (LIVE_TERMS[k], [LIVE_GRIDS[h[0]][:2] for h in hist], st), observed=float(got[k]), expected=float(exp[k])))
+                        return fails
+    return fails
+
 def gen():
     ngeom = len(GEOMS)
     # gamma surface: nodes, periodicity, model round trip
@@ -1297,6 +1368,10 @@ def gen():
                                 continue
                             yield 'solve', dict(sys=si, prof=pr, set=st, meth=meth, how=how, gam=gam,
                                                 N=(13 if not THOROUGH else 21))
+    # one live SDVPN object over several grids / settings
+    for si in ((0, 4) if not THOROUGH else range(len(SYSTEMS))):
+        for g1 in range(len(LIVE_GRIDS)):
+            yield 'live', dict(sys=si, g1=g1)
     # half-width
     for si in (0, 4):
         for cfg in range(len(HW_CONFIGS)):
